@@ -3,6 +3,7 @@ package main
 import (
 	"fmt"
 	"go/constant"
+	"go/types"
 	"strings"
 
 	"golang.org/x/tools/go/ssa"
@@ -50,7 +51,7 @@ func runC07(c *Ctx) {
 				okArg := w.isFieldLoadOf(call.Call.Args[1], addPerm.Params[1], "timeout")
 				// on the found edge: receiver is the map lookup result, ok is true
 				lk, _ := stripIface(w.resolveLoad(call.Call.Args[0])).(*ssa.Extract)
-				okRecv := lk != nil
+				okRecv := lk != nil && lk.Index == 0 && lookupPairOf(w, lk.Tuple, w.Field("allocation", "Allocation", "permissions"))
 				okEdge := false
 				for _, f := range w.factsAt(in) {
 					if f.Op == "true" && f.Truth {
@@ -359,4 +360,38 @@ func ruleTimerRoles(c *Ctx, rule string) {
 		}
 	}
 
+}
+
+// lookupPairOf: tuple is (entry, present) of a comma-ok lookup in the table field tbl — the
+// lookup itself, or a call of a module function every return of which yields either
+// (_, false) or results #0/#1 of one such lookup.
+func lookupPairOf(w *World, tuple ssa.Value, tbl *types.Var) bool {
+	switch t := tuple.(type) {
+	case *ssa.Lookup:
+		_, f, ok := fieldLoad(w.resolveLoad(t.X))
+		return t.CommaOk && ok && f == tbl
+	case *ssa.Call:
+		h := t.Call.StaticCallee()
+		if h == nil || !w.IsMod[h] || len(h.Blocks) == 0 {
+			return false
+		}
+		n := 0
+		for _, r := range returnsOf(h) {
+			if len(r.Results) != 2 {
+				return false
+			}
+			r0, r1 := w.resolveLoad(r.Results[0]), w.resolveLoad(r.Results[1])
+			if c, isC := r1.(*ssa.Const); isC && c.Value != nil && c.Value.String() == "false" {
+				continue
+			}
+			e0, ok0 := r0.(*ssa.Extract)
+			e1, ok1 := r1.(*ssa.Extract)
+			if !ok0 || !ok1 || e0.Tuple != e1.Tuple || e0.Index != 0 || e1.Index != 1 || !lookupPairOf(w, e0.Tuple, tbl) {
+				return false
+			}
+			n++
+		}
+		return n > 0
+	}
+	return false
 }
